@@ -78,7 +78,8 @@ def _body(rng, tk: Tokens, exp: Expect, unit: int, feature, twin, xhtml: bool, t
             for j in range(cols):
                 tag = "th" if i == 0 and rng.random() < 0.5 else "td"
                 if (rng.random() < 0.1 and (i or j)) if blank is None else (blank == "all" or (i, j) != (0, 0)):
-                    tds.append(f"<{tag}></{tag}>")
+                    # XML serialisers (ElementTree, lxml) write an empty element in the short form
+                    tds.append(rng.choice([f"<{tag}/>", f"<{tag} />"]) if xhtml and (i * 7 + j) % 2 else f"<{tag}></{tag}>")
                     grow.append({"empty": True})
                     continue
                 t = cellw()
